@@ -23,7 +23,12 @@ Implementation: Composition pattern with analyzer classes, AST-based analysis
 from typing import Any
 
 from src.core.base import BaseLintContext, MultiLanguageLintRule
-from src.core.linter_utils import load_linter_config, with_parsed_python
+from src.core.linter_utils import (
+    is_ignored_path,
+    load_linter_config,
+    project_relative_path,
+    with_parsed_python,
+)
 from src.core.types import Violation
 from src.linter_config.ignore import get_ignore_parser
 
@@ -58,6 +63,13 @@ class StringConcatLoopRule(MultiLanguageLintRule):
     def description(self) -> str:
         """Description of what this rule checks."""
         return "String += in loops creates O(n²) complexity; use join() instead"
+
+    def check(self, context: BaseLintContext) -> list[Violation]:
+        """Skip files matching the section's `ignore` patterns, then check as usual."""
+        config = self._load_config(context)
+        if config.ignore and is_ignored_path(project_relative_path(context), config.ignore):
+            return []
+        return super().check(context)
 
     def _load_config(self, context: BaseLintContext) -> PerformanceConfig:
         """Load configuration from context.
